@@ -431,6 +431,7 @@ func pfList(p [][]byte, err error) string {
 
 func scenarioProofFmt(t *traceWriter, rng *rand.Rand) {
 	n := pick(800, 30000)
+	var reused witness.Proof // one receiver used again and again, as a polling caller would
 	for i := 0; i < n; i++ {
 		np := rng.Intn(6)
 		if rng.Intn(8) == 0 {
@@ -474,5 +475,8 @@ func scenarioProofFmt(t *traceWriter, rng *rand.Rand) {
 		var u witness.Proof
 		err = u.Unmarshal(d)
 		t.line("PFU %s => %s", hx(d), pfList(u, err))
+		// the same through a receiver that already holds an earlier (possibly longer) proof
+		err2 := reused.Unmarshal([]byte(m))
+		t.line("PFR proof=%s => m=%s u=%s", hxList(p), hx([]byte(m)), pfList(reused, err2))
 	}
 }
